@@ -60,7 +60,7 @@ pub fn explore_programs(prop: &str, setup: &Setup, programs: &[Vec<String>], bou
         let schedule: Vec<String> = x.points.iter().map(|p| p.what.clone()).collect();
         if let Some(d) = &x.deadlock {
             if seen_clause.insert("deadlock".into()) {
-                found.push(Violation { clause: "deadlock".into(), shape: shape_base.clone(), detail: d.clone(), replay: json!({"engine":"ilv","property":prop,"programs":programs,"choices":choices,"schedule":schedule}) });
+                found.push(Violation { clause: "deadlock".into(), shape: shape_base.clone(), detail: d.clone(), replay: json!({"engine":"ilv","property":prop,"programs":programs,"init":setup.init,"sessions":setup.session_init.len(),"syscall_points":crate::ilv::SYSCALL_POINTS.load(std::sync::atomic::Ordering::SeqCst),"choices":choices,"schedule":schedule}) });
             }
             return;
         }
@@ -70,7 +70,7 @@ pub fn explore_programs(prop: &str, setup: &Setup, programs: &[Vec<String>], bou
                 Some((v, _)) => ops.extend(v.iter().cloned()),
                 None => {
                     if seen_clause.insert("thread-panic".into()) {
-                        found.push(Violation { clause: "thread-panic".into(), shape: shape_base.clone(), detail: "a client thread panicked outside process_request".into(), replay: json!({"engine":"ilv","programs":programs,"choices":choices}) });
+                        found.push(Violation { clause: "thread-panic".into(), shape: shape_base.clone(), detail: "a client thread panicked outside process_request".into(), replay: json!({"engine":"ilv","programs":programs,"init":setup.init,"sessions":setup.session_init.len(),"syscall_points":crate::ilv::SYSCALL_POINTS.load(std::sync::atomic::Ordering::SeqCst),"choices":choices}) });
                     }
                     w.node.remove_dir();
                     return;
@@ -146,7 +146,7 @@ pub fn explore_programs(prop: &str, setup: &Setup, programs: &[Vec<String>], bou
                 let clause = if attributable { "replication-queue-order-differs-from-apply-order".to_string() } else { format!("replica-differs-from-primary: {}", kinds.into_iter().collect::<Vec<_>>().join("+")) };
                 // C19 is stated for writes applied in the primary's order
                 if !(attributable && prop == "C19" && std::env::var("NUNMC_C19_STRICT").is_err()) && seen_clause.insert(clause.clone()) {
-                    found.push(Violation { clause, shape: shape_base.clone(), detail: format!("primary {:?}; a replica fed the primary's replication queue in order {:?} ends with {:?}; schedule {:?}", fin, stream, rep, schedule), replay: json!({"engine":"ilv","property":prop,"programs":programs,"choices":choices,"schedule":schedule}) });
+                    found.push(Violation { clause, shape: shape_base.clone(), detail: format!("primary {:?}; a replica fed the primary's replication queue in order {:?} ends with {:?}; schedule {:?}", fin, stream, rep, schedule), replay: json!({"engine":"ilv","property":prop,"programs":programs,"init":setup.init,"sessions":setup.session_init.len(),"syscall_points":crate::ilv::SYSCALL_POINTS.load(std::sync::atomic::Ordering::SeqCst),"choices":choices,"schedule":schedule}) });
                 }
             }
         }
@@ -154,14 +154,14 @@ pub fn explore_programs(prop: &str, setup: &Setup, programs: &[Vec<String>], bou
         outcomes.insert(oc);
         if ops.iter().any(|o| o.resp.starts_with("PANIC")) {
             if seen_clause.insert("handler-panic".into()) {
-                found.push(Violation { clause: "handler-panic".into(), shape: shape_base.clone(), detail: format!("{:?}", ops), replay: json!({"engine":"ilv","programs":programs,"choices":choices,"schedule":schedule}) });
+                found.push(Violation { clause: "handler-panic".into(), shape: shape_base.clone(), detail: format!("{:?}", ops), replay: json!({"engine":"ilv","programs":programs,"init":setup.init,"sessions":setup.session_init.len(),"syscall_points":crate::ilv::SYSCALL_POINTS.load(std::sync::atomic::Ordering::SeqCst),"choices":choices,"schedule":schedule}) });
             }
             return;
         }
         LAST_SCHEDULE.with(|l| *l.borrow_mut() = schedule.clone());
         if let Some((clause, detail)) = extra(&ops, &fin, &spectator_msgs) {
             if seen_clause.insert(clause.clone()) {
-                found.push(Violation { clause, shape: shape_base.clone(), detail, replay: json!({"engine":"ilv","property":prop,"programs":programs,"choices":choices,"schedule":schedule}) });
+                found.push(Violation { clause, shape: shape_base.clone(), detail, replay: json!({"engine":"ilv","property":prop,"programs":programs,"init":setup.init,"sessions":setup.session_init.len(),"syscall_points":crate::ilv::SYSCALL_POINTS.load(std::sync::atomic::Ordering::SeqCst),"choices":choices,"schedule":schedule}) });
             }
         }
         if check_lin && !linearizable(&seq, &ops, &fin) {
@@ -171,7 +171,7 @@ pub fn explore_programs(prop: &str, setup: &Setup, programs: &[Vec<String>], bou
                     clause: "not-linearizable".into(),
                     shape: shape_base.clone(),
                     detail: format!("no sequential order of the same commands gives these replies and final state: {:?} final {:?}; schedule {:?}", replies, fin, schedule),
-                    replay: json!({"engine":"ilv","property":prop,"programs":programs,"choices":choices,"schedule":schedule}),
+                    replay: json!({"engine":"ilv","property":prop,"programs":programs,"init":setup.init,"sessions":setup.session_init.len(),"syscall_points":crate::ilv::SYSCALL_POINTS.load(std::sync::atomic::Ordering::SeqCst),"choices":choices,"schedule":schedule}),
                 });
             }
         }
@@ -405,8 +405,9 @@ pub fn run(run: &mut Run) {
 /// `./check replay <file>` for an ILV counterexample of C02 / C04 / C19: the recorded choice
 /// sequence is executed once more on a fresh world; the schedule, every reply, the final state and
 /// (where the check uses one) the replica's state are printed.  Run twice to see the same output.
-pub fn replay_ilv(prop: &str, programs: &[Vec<String>], choices: &[usize]) -> i32 {
-    let setup = match prop {
+pub fn replay_ilv(prop: &str, programs: &[Vec<String>], choices: &[usize], init: Option<Vec<String>>, sessions: usize, syscall_points: bool) -> i32 {
+    crate::ilv::SYSCALL_POINTS.store(syscall_points, std::sync::atomic::Ordering::SeqCst);
+    let mut setup = match prop {
         "C02" => setup_c02(3),
         "C04" => Setup { strategy: "none", init: vec!["set k 1".into(), "set k 1".into(), "set c 5".into()], session_init: (0..2).map(|_| vec!["use-db t tok".to_string()]).collect(), check_replica: true },
         "C19" => Setup { strategy: "newer", init: vec!["set k 1".into(), "set k 1".into()], session_init: vec![vec!["use-db t tok".to_string()], vec!["use-db t tok".to_string()], vec!["use-db t tok".to_string(), "watch k".to_string()]], check_replica: true },
@@ -415,6 +416,13 @@ pub fn replay_ilv(prop: &str, programs: &[Vec<String>], choices: &[usize]) -> i3
             return 2;
         }
     };
+    // files written since session 4 carry the set-up the threads started from
+    if let Some(i) = init {
+        setup.init = i;
+        if sessions > 0 && prop == "C02" {
+            setup.session_init = (0..sessions).map(|_| vec!["use-db t tok".to_string()]).collect();
+        }
+    }
     let mut outputs = vec![];
     for round in 0..2 {
         let (mut w, mut sessions) = build(&setup);
